@@ -1,7 +1,24 @@
-(** C02 — property theorems only.  Each is closed by [exact] of a lemma proved in Proofs.v
-    and followed by [Print Assumptions]. *)
+(** C02 — property theorems only.  Each is closed by [exact] of a lemma proved in Proofs*.v
+    and followed by [Print Assumptions].
+
+    Vocabulary (definitions in Proofs.v / ProofsLists.v / ProofsVoteSet.v):
+    - [final (new_voteset chain h r ty vals) ops]: the vote set reached from a fresh
+      VoteSet by an arbitrary history [ops] of AddVote / SetPeerMaj23 / MakeCommit /
+      VerifyCommit calls;
+    - [offered ops v]: [In (OpVote v) ops];
+    - [stored_ok chain h r ty vals ops i v]: [v] was offered in [ops], carries validator index
+      [i], the address of validator [i] of [vals], the vote set's height, round and type, and a
+      signature that is valid for that validator over exactly the vote's content
+      ([valid_vote_of]);
+    - [voters_power vals w]: exact (unbounded) sum of the powers of the validators whose
+      position holds a vote in the position-indexed list [w]; [mask_power vals A] the same for
+      a boolean mask [A].  One summand per position: a validator counts at most once;
+    - [valid_vote ... v]: [v] passes the checks of addVote that do not depend on earlier votes
+      (non-empty address, step, index in range, address of that index, signature);
+      [first_valid ... ops i]: the first vote of [ops] with index [i] that does. *)
 From Coq Require Import List ZArith NArith Bool.
-From Kardia Require Import Base.Int64 C02.Model C02.Proofs Generated.C02Facts.
+From Kardia Require Import Base.Int64 C02.Model C02.Proofs C02.ProofsLists C02.ProofsVoteSet
+     C02.ProofsExamples Generated.C02Facts.
 Local Open Scope Z_scope.
 
 (** "+2/3" is strict: the integer quorum the code computes is reached exactly when the
@@ -35,3 +52,136 @@ Theorem C02_verify_commit_sound :
     2 * sum_powers vals < 3 * signed_power chain h (c_round c) want vals (c_sigs c).
 Proof. exact verify_commit_sound. Qed.
 Print Assumptions C02_verify_commit_sound.
+
+(** Each validator's power is counted at most once whatever it sends: in every reachable vote
+    set, [sum] is the exact total of the powers of the positions that hold a vote, every
+    per-block sum is the exact total of the positions of that block's entry, no int64 addition
+    wrapped, and every stored vote is an offered, valid vote of that position (for the entry of
+    block [b]: a vote for exactly [b]). *)
+Theorem C02_counted_once :
+  forall chain h r ty vals, wf_vals vals -> forall ops,
+    let s := final (new_voteset chain h r ty vals) ops in
+    length (vs_votes s) = length vals /\
+    vs_sum s = voters_power vals (vs_votes s) /\ 0 <= vs_sum s <= sum_powers vals /\
+    (forall i v, vote_at (vs_votes s) i = Some v -> stored_ok chain h r ty vals ops i v) /\
+    forall b bv, bb_find b (vs_byblock s) = Some bv ->
+      length (bv_votes bv) = length vals /\
+      bv_sum bv = voters_power vals (bv_votes bv) /\ 0 <= bv_sum bv <= sum_powers vals /\
+      forall i v, vote_at (bv_votes bv) i = Some v -> stored_ok chain h r ty vals ops i v /\ v_bid v = b.
+Proof. exact counted_once. Qed.
+Print Assumptions C02_counted_once.
+
+(** HasTwoThirdsAny: distinct validators with offered, valid votes hold strictly more than 2/3 *)
+Theorem C02_any_sound :
+  forall chain h r ty vals, wf_vals vals -> forall ops,
+    let s := final (new_voteset chain h r ty vals) ops in
+    has_two_thirds_any s = true ->
+    (forall i v, vote_at (vs_votes s) i = Some v -> stored_ok chain h r ty vals ops i v) /\
+    2 * sum_powers vals < 3 * voters_power vals (vs_votes s).
+Proof. exact any_sound. Qed.
+Print Assumptions C02_any_sound.
+
+(** HasAll: the validators with offered, valid votes hold the whole power *)
+Theorem C02_hasall_sound :
+  forall chain h r ty vals, wf_vals vals -> forall ops,
+    let s := final (new_voteset chain h r ty vals) ops in
+    has_all s = true ->
+    (forall i v, vote_at (vs_votes s) i = Some v -> stored_ok chain h r ty vals ops i v) /\
+    voters_power vals (vs_votes s) = sum_powers vals.
+Proof. exact hasall_sound. Qed.
+Print Assumptions C02_hasall_sound.
+
+(** A vote rejected with any error other than a conflict, and a duplicate, leave the vote set
+    exactly as it was (any state, reachable or not). *)
+Theorem C02_rejected_unchanged :
+  forall vs v vs' added e,
+    add_vote vs v = (vs', added, e) -> e <> EConflict -> (e <> ENone \/ added = false) ->
+    vs' = vs /\ added = false.
+Proof. exact rejected_unchanged. Qed.
+Print Assumptions C02_rejected_unchanged.
+
+(** TwoThirdsMajority = b only if the stored entry of [b] holds, at distinct validator
+    positions, offered votes with that index and address, this height, round and type, a valid
+    signature, block id exactly [b], whose exact total power is strictly more than 2/3. *)
+Theorem C02_maj23_sound :
+  forall chain h r ty vals, wf_vals vals -> forall ops b,
+    let s := final (new_voteset chain h r ty vals) ops in
+    vs_maj23 s = Some b ->
+    exists bv, bb_find b (vs_byblock s) = Some bv /\
+      length (bv_votes bv) = length vals /\
+      (forall i v, vote_at (bv_votes bv) i = Some v -> stored_ok chain h r ty vals ops i v /\ v_bid v = b) /\
+      2 * sum_powers vals < 3 * voters_power vals (bv_votes bv).
+Proof. exact maj23_sound. Qed.
+Print Assumptions C02_maj23_sound.
+
+(** For precommits, when every offered vote has a zero or complete block id (what
+    Vote.ValidateBasic enforces on the wire) and the majority block id is complete, MakeCommit
+    does not panic and VerifyCommit with the same validator set accepts its result (at any
+    height, including 0). *)
+Theorem C02_commit_roundtrip :
+  forall chain h r ty vals, wf_vals vals -> forall ops b,
+    let s := final (new_voteset chain h r ty vals) ops in
+    ty = PRECOMMIT ->
+    (forall v, offered ops v -> bid_is_zero (v_bid v) = true \/ bid_is_complete (v_bid v) = true) ->
+    vs_maj23 s = Some b -> bid_is_complete b = true ->
+    exists c, make_commit s = Some c /\ verify_commit vals chain b h c = COk.
+Proof. exact commit_roundtrip. Qed.
+Print Assumptions C02_commit_roundtrip.
+
+(** Completeness: if the validators of a set [A] holding strictly more than 2/3 each have, as
+    the first of their votes passing the stateless checks, a vote for [b], then a majority is
+    reported, whatever else is in the history. *)
+Theorem C02_complete :
+  forall chain h r ty vals, wf_vals vals -> forall ops A b,
+    let s := final (new_voteset chain h r ty vals) ops in
+    2 * sum_powers vals < 3 * mask_power vals A ->
+    (forall i, nth i A false = true ->
+               exists v, first_valid chain h r ty vals ops i = Some v /\ v_bid v = b) ->
+    vs_maj23 s <> None.
+Proof. exact complete. Qed.
+Print Assumptions C02_complete.
+
+(** ... and it is [b] when the members of [A] offer no valid vote for another id (everybody
+    else may equivocate and peers may claim anything) ... *)
+Theorem C02_complete_exact :
+  forall chain h r ty vals, wf_vals vals -> forall ops A b,
+    let s := final (new_voteset chain h r ty vals) ops in
+    2 * sum_powers vals < 3 * mask_power vals A ->
+    (forall i, nth i A false = true ->
+               exists v, first_valid chain h r ty vals ops i = Some v /\ v_bid v = b) ->
+    (forall i v, nth i A false = true -> offered ops v -> N.to_nat (v_idx v) = i ->
+                 valid_vote chain h r ty vals v = true -> v_bid v = b) ->
+    vs_maj23 s = Some b.
+Proof. exact complete_exact. Qed.
+Print Assumptions C02_complete_exact.
+
+(** ... or when no validator's first valid vote is for another id (later equivocation by
+    anybody, admitted through peer claims, cannot overtake [b]). *)
+Theorem C02_complete_all_first :
+  forall chain h r ty vals, wf_vals vals -> forall ops A b,
+    let s := final (new_voteset chain h r ty vals) ops in
+    2 * sum_powers vals < 3 * mask_power vals A ->
+    (forall i, nth i A false = true ->
+               exists v, first_valid chain h r ty vals ops i = Some v /\ v_bid v = b) ->
+    (forall i v, first_valid chain h r ty vals ops i = Some v -> v_bid v = b) ->
+    vs_maj23 s = Some b.
+Proof. exact complete_all_first. Qed.
+Print Assumptions C02_complete_all_first.
+
+(** Non-vacuity: one concrete 4-validator history (ProofsExamples.v) satisfies all the
+    hypotheses above at once and contains a rejected and an admitted conflicting vote. *)
+Theorem C02_hypotheses_satisfiable :
+  exists chain h r vals ops A b,
+    wf_vals vals /\
+    2 * sum_powers vals < 3 * mask_power vals A /\
+    (forall i, nth i A false = true ->
+               exists v, first_valid chain h r PRECOMMIT vals ops i = Some v /\ v_bid v = b) /\
+    (forall i v, nth i A false = true -> offered ops v -> N.to_nat (v_idx v) = i ->
+                 valid_vote chain h r PRECOMMIT vals v = true -> v_bid v = b) /\
+    (forall v, offered ops v -> bid_is_zero (v_bid v) = true \/ bid_is_complete (v_bid v) = true) /\
+    bid_is_complete b = true /\
+    vs_maj23 (final (new_voteset chain h r PRECOMMIT vals) ops) = Some b /\
+    In (Some (true, EConflict)) (map ob_err (snd (run (new_voteset chain h r PRECOMMIT vals) ops))) /\
+    In (Some (false, EConflict)) (map ob_err (snd (run (new_voteset chain h r PRECOMMIT vals) ops))).
+Proof. exact hypotheses_satisfiable. Qed.
+Print Assumptions C02_hypotheses_satisfiable.
